@@ -261,6 +261,6 @@ for _p in ("C01", "C02", "C06", "C07", "C09", "C11", "C12", "C03", "C04", "C10",
     PROPS[_p]["emu_max_quick"] = 15000
 
 # extraction cross-check (tools/vmcheck.py): a sample of the cases is evaluated by vm_compute inside Coq
-for _p in ("C01", "C02", "C07", "C03", "C04", "C09", "C10", "C12", "C18"):
+for _p in ("C01", "C02", "C06", "C07", "C03", "C04", "C08", "C09", "C10", "C12", "C13", "C18"):
     PROPS[_p]["vmcheck"] = True
     PROPS[_p]["coq_files"] = PROPS[_p]["coq_files"] + ["Cases/Eval.v"]
